@@ -587,4 +587,7 @@ CONTRACTS = CONTRACTS + [MetricsBlock(), FrameAudit(),
 
 from .C02 import AsyncScope as _AsyncScope, SyncScope as _SyncScope, variant as _variant      # noqa: E402
 
-CONTRACTS = CONTRACTS + [_variant(_AsyncScope, "C09", ("C09-",)), _variant(_SyncScope, "C09", ("C09-",))]
+# nested scopes register under the scope that is *current* when they are made: after a block the metrics variable is the enclosing
+# scope again, however the block was left
+_c09 = lambda n: n.startswith("C09-") or "MetricsContext-variable-is-what-it-was" in n      # noqa: E731
+CONTRACTS = CONTRACTS + [_variant(_AsyncScope, "C09", _c09), _variant(_SyncScope, "C09", _c09)]
